@@ -3,6 +3,7 @@ mod api;
 mod envelope;
 mod naming;
 mod objects;
+mod opencorrupt;
 
 fn main() {
     let mut v: Vec<Box<dyn lvharness::suite::Suite>> = vec![];
@@ -10,5 +11,6 @@ fn main() {
     v.extend(objects::suites());
     v.extend(naming::suites());
     v.extend(api::suites());
+    v.extend(opencorrupt::suites());
     lvharness::cli_main(v);
 }
